@@ -19,7 +19,7 @@ EXPLANATION = (
     "attribute name), a default that is an instance of a repository class is rejected if the model writes fields of "
     "the object it is stored in; values copied out of the crop catalogue are immutable scalars (all 37 entries). "
     "C10.b (sources of nondeterminism): no call into random / numpy.random / uuid / secrets / os.urandom / hash() / "
-    "id(); no iteration over a set (hash-seed dependent order); time.time() results reach only the execution-time "
+    "id(); no order-sensitive use of a set (hash-seed dependent order); no numpy.empty / empty_like / ndarray allocation except as the backing of a frame whose every declared column is assigned in the same function; time.time() results reach only the execution-time "
     "fields; os.getenv selects between identical imports. Trusted: numpy / pandas are deterministic (A-10). NOT "
     "decided: bitwise equality itself.")
 
@@ -265,6 +265,47 @@ def rule_b(chk, prog):
                               f"the set `{norm(x)[:40]}` is turned into / consumed as an ordered sequence: its order depends on the hash seed of the "
                               "process, so do the results", loc=fi.loc(x))
     chk.notes["set_valued_expressions"] = n_sets
+    # uninitialised memory: numpy.empty / empty_like hand out whatever the allocator left there (depends on what ran before in the
+    # process). Allowed only as the backing of a frame every declared column of which is assigned in the same function.
+    n_empty = 0
+    for fi in prog.funcs.values():
+        where = f"{fi.module}:{fi.qualname}"
+        parent = {}
+        for x in walk_no_nested(fi.node):
+            for c in ast.iter_child_nodes(x):
+                parent[id(c)] = x
+        for c in walk_no_nested(fi.node):
+            if not (isinstance(c, ast.Call) and isinstance(c.func, ast.Attribute) and c.func.attr in ("empty", "empty_like", "ndarray")
+                    and (prog.external_name(fi, c.func) or "").startswith("numpy.")):
+                continue
+            n_empty += 1
+            par = parent.get(id(c))
+            ok = False
+            if isinstance(par, ast.Call) and isinstance(par.func, ast.Attribute) and par.func.attr == "DataFrame":
+                cols = next((k.value for k in par.keywords if k.arg == "columns"), None)
+                asg = parent.get(id(par))
+                if isinstance(cols, ast.List) and all(isinstance(e, ast.Constant) for e in cols.elts) and isinstance(asg, ast.Assign):
+                    tgt = norm(asg.targets[0])
+                    assigned = set()
+                    for a in walk_no_nested(fi.node):
+                        if isinstance(a, ast.Assign):
+                            t = a.targets[0]
+                            if isinstance(t, ast.Attribute) and norm(t.value) == tgt:
+                                assigned.add(t.attr)
+                            if isinstance(t, ast.Subscript) and norm(t.value) == tgt and isinstance(t.slice, ast.Constant):
+                                assigned.add(t.slice.value)
+                    missing = [e.value for e in cols.elts if e.value not in assigned]
+                    if not missing:
+                        ok = True
+                        chk.ok("C10.b", where, norm(par)[:80], "uninitialised backing array, every declared column assigned in the same function")
+                    else:
+                        chk.violation("C10.b", where, norm(par)[:80], f"columns {missing} of a frame backed by numpy.empty are never assigned: they hold whatever the "
+                                      "allocator left in that memory", loc=fi.loc(c))
+                        ok = True
+            if not ok:
+                chk.violation("C10.b", where, norm(par if par is not None else c)[:90], "numpy.empty hands out uninitialised memory: cells the run never writes (days "
+                              "skipped between seasons, days after the last harvest) depend on what ran earlier in the process", loc=fi.loc(c))
+    chk.notes["uninitialised_allocations"] = n_empty
     chk.floor("C10.b", calls, 400, "call sites scanned")
     chk.ok("C10.b", "aquacrop", f"{calls} call sites / all loops", "no nondeterminism source, no set iteration")
     # os.getenv selecting imports: both branches import the same symbols from the same modules
